@@ -2,6 +2,7 @@
 //! obligation or could not take changed code; prints `WITNESS <text>` for the first failing inputs it finds.
 #![allow(unused, clippy::all)]
 mod refimpl;
+mod rsakeys;
 use refimpl as R;
 use rusty_paseto::prelude::*;
 use std::panic::{catch_unwind, AssertUnwindSafe};
@@ -85,7 +86,7 @@ fn c01() {
     { let key = lkv(PasetoSymmetricKey::<V4, Local>::from(key32(3))); let big = "z".repeat(66_000);
       let mut pb = PasetoBuilder::<V4, Local>::default(); pb.set_claim(CustomClaim::try_from(("blob", big.as_str())).unwrap());
       match pb.build(&key) { Ok(t) => { let r = PasetoParser::<V4, Local>::default().parse(lk(&t), key); if r.as_ref().map(|j| j["blob"] != big.as_str()).unwrap_or(true) { return wit(format!("C01 PasetoBuilder/PasetoParser<V4,Local> with a 66000-byte claim does not round-trip: {:?}", r.map(|_| "Ok(other)").map_err(|e| e.to_string()))); } } Err(e) => return wit(format!("C01 PasetoBuilder<V4,Local>::build with a 66000-byte claim failed: {e}")) } }
-    layers_roundtrip();
+    layers_roundtrip(); layer_setter_orders("C01");
 }
 #[cfg(feature = "main_set")]
 fn layers_roundtrip() {
@@ -157,6 +158,9 @@ fn tampered(t: &str) -> Vec<(String, String)> {
         out.push(("footer segment of 256 chars added".into(), format!("{t}.{}", "A".repeat(256))));
         out.push(("footer segment 'Zm9v' added".into(), format!("{t}.Zm9v")));
     }
+    for (what, extra) in [("one more empty segment ('.' appended)", "."), ("a segment 'AAAA' appended", ".AAAA"), ("two empty segments appended", ".."), ("segments '.x.y.z' appended", ".x.y.z"), ("'..junk' appended", "..junk")] {
+        // (a single trailing '.' after a footer-less token is the tolerated empty footer segment; the caller filters that case)
+        out.push((format!("{what}"), format!("{t}{extra}"))); }
     out.push(("one char appended to payload text".into(), { let mut s = format!("{hdr}{}A", parts[2]); if parts.len() == 4 { s.push('.'); s.push_str(parts[3]); } s }));
     out.push(("payload text with '=' padding".into(), { let mut s = format!("{hdr}{}=", parts[2]); if parts.len() == 4 { s.push('.'); s.push_str(parts[3]); } s }));
     out.push(("payload text with '==' padding".into(), { let mut s = format!("{hdr}{}==", parts[2]); if parts.len() == 4 { s.push('.'); s.push_str(parts[3]); } s }));
@@ -173,7 +177,8 @@ fn c03() {
         let t = match local::enc(v, 1, 2, m, &f, &i, false) { Ok(t) => t, Err(_) => continue };
         for (what, t2) in tampered(&t) {
             if t2 == t { continue; }
-            match local::dec(v, 1, &t2, &f, &i) {
+            let res = match catch_unwind(AssertUnwindSafe(|| local::dec(v, 1, &t2, &f, &i))) { Ok(r) => r, Err(_) => return wit(format!("C03 v{v}.local PANICS on an altered token ({what}) instead of returning an error: {t2}")) };
+            match res {
                 Ok(p) => { if !(p == m && (t2 == format!("{t}.") || t == format!("{t2}."))) { return wit(format!("C03 v{v}.local accepts an altered token ({what}): authentic {t} (message len {}, footer {:?}) altered {t2} -> Ok({:?})", m.len(), f.as_ref().map(|x| x.len()), &p[..p.len().min(20)])); } }
                 Err(e) => { if local::is_utf8_err(&e) { return wit(format!("C03 v{v}.local rejects an altered token ({what}) with a UTF-8 error, i.e. plaintext was handled before authentication: altered {t2} -> {e:?}")); } }
             }
@@ -237,7 +242,53 @@ fn c04() {
     let (kp, _pk) = R::ed_keypair(9); let (_kp2, pk2) = R::ed_keypair(10);
     let k64 = lkv(Key::<64>::from(kp)); let k32 = lkv(Key::<32>::from(pk2));
     let mut b = Paseto::<V4, Public>::builder(); b.set_payload(Payload::from("{}"));
-    if let Ok(t) = b.try_sign(&PasetoAsymmetricPrivateKey::<V4, Public>::from(k64)) { if Paseto::<V4, Public>::try_verify(&t, &PasetoAsymmetricPublicKey::<V4, Public>::from(k32), None, None).is_ok() { return wit(format!("C04 v4.public token verifies under an unrelated public key: {t}")); } }
+    if let Ok(t) = b.try_sign(&PasetoAsymmetricPrivateKey::<V4, Public>::from(k64)) { if Paseto::<V4, Public>::try_verify(&t, &PasetoAsymmetricPublicKey::<V4, Public>::from(k32), None, None).is_ok() { return wit(format!("C04 v4.public token verifies under an unrelated public key: {t}")); }
+        // verify under the right key first, then under every single-bit neighbour of it (v4 and v2)
+        let (_kpa, pka) = R::ed_keypair(9); let right = lkv(Key::<32>::from(pka));
+        let _ = Paseto::<V4, Public>::try_verify(&t, &PasetoAsymmetricPublicKey::<V4, Public>::from(right), None, None);
+        for byte in 0..32usize { for bit in [0u8, 7] { let mut nb = pka; nb[byte] ^= 1 << bit; let nk = lkv(Key::<32>::from(nb));
+            if Paseto::<V4, Public>::try_verify(&t, &PasetoAsymmetricPublicKey::<V4, Public>::from(nk), None, None).is_ok() { return wit(format!("C04 v4.public token verifies under a neighbour of the signer's key (bit {bit} of byte {byte} flipped) after a verification under the right key")); } } }
+        let mut b2 = Paseto::<V2, Public>::builder(); b2.set_payload(Payload::from("{}"));
+        if let Ok(t2) = b2.try_sign(&PasetoAsymmetricPrivateKey::<V2, Public>::from(k64)) { let _ = Paseto::<V2, Public>::try_verify(&t2, &PasetoAsymmetricPublicKey::<V2, Public>::from(right), None);
+            for byte in 0..32usize { let mut nb = pka; nb[byte] ^= 1; let nk = lkv(Key::<32>::from(nb));
+                if Paseto::<V2, Public>::try_verify(&t2, &PasetoAsymmetricPublicKey::<V2, Public>::from(nk), None).is_ok() { return wit(format!("C04 v2.public token verifies under a neighbour of the signer's key (bit 0 of byte {byte} flipped) after a verification under the right key")); } } } }
+    // several local keys in one process, in both orders (derived-key caches)
+    for v in 1..=4u8 { let ta = local::enc(v, 1, 2, "{\"a\":1}", &None, &None, false).unwrap_or_default(); let tb = local::enc(v, 9, 2, "{\"a\":1}", &None, &None, false).unwrap_or_default();
+        for (tok, own, other) in [(&ta, 1u8, 9u8), (&tb, 9, 1), (&ta, 1, 9)] { if local::dec(v, own, tok, &None, &None).is_err() { return wit(format!("C01 v{v}.local token does not decrypt under its own key [7,{own},..] after other keys were used in the process")); }
+            if local::dec(v, other, tok, &None, &None).is_ok() { return wit(format!("C04 v{v}.local token built under key [7,{own},..] decrypts under key [7,{other},..] once both keys have been used in the process")); } } }
+}
+#[cfg(feature = "main_set")]
+fn layer_setter_orders(pid: &str) {
+    // footer / assertion given to builders and parsers in every order, replaced, and cleared again
+    let key = lkv(PasetoSymmetricKey::<V4, Local>::from(key32(1)));
+    for (bf, bi) in [(Some("F"), Some("A")), (Some("F"), None), (None, Some("A")), (None, None)] {
+        let mut b = GenericBuilder::<V4, Local>::default(); b.set_claim(AudienceClaim::from("a"));
+        if let Some(f) = bf { b.set_footer(Footer::from(f)); } if let Some(i) = bi { b.set_implicit_assertion(ImplicitAssertion::from(i)); }
+        let t = match b.try_encrypt(key) { Ok(t) => lk(&t), Err(_) => continue };
+        for (pf, pi) in [(Some("F"), Some("A")), (Some("F"), None), (None, Some("A")), (None, None), (Some("G"), Some("A")), (Some("F"), Some("B"))] { for order in 0..2 {
+            let same = bf.unwrap_or("") == pf.unwrap_or("") && bi.unwrap_or("") == pi.unwrap_or("");
+            let mut g = GenericParser::<V4, Local>::default(); let mut p = PasetoParser::<V4, Local>::default();
+            if order == 0 { if let Some(f) = pf { g.set_footer(Footer::from(f)); p.set_footer(Footer::from(f)); } if let Some(i) = pi { g.set_implicit_assertion(ImplicitAssertion::from(i)); p.set_implicit_assertion(ImplicitAssertion::from(i)); } }
+            else { if let Some(i) = pi { g.set_implicit_assertion(ImplicitAssertion::from(i)); p.set_implicit_assertion(ImplicitAssertion::from(i)); } if let Some(f) = pf { g.set_footer(Footer::from(f)); p.set_footer(Footer::from(f)); } }
+            let rg = g.parse(t, key).is_ok(); let rp = p.parse(t, key).is_ok();
+            if rg != same || rp != same { return wit(format!("{pid} token built with footer {bf:?} / assertion {bi:?}; parser given footer {pf:?} / assertion {pi:?} ({}): GenericParser accepts = {rg}, PasetoParser accepts = {rp}, must be {same}", if order == 0 { "footer set first" } else { "assertion set first" })); } } }
+    }
+    // a setter called again replaces the earlier value, including with the empty value
+    { let mut g = GenericParser::<V4, Local>::default(); g.set_footer(Footer::from("old")); g.set_footer(Footer::from(""));
+      let mut b = GenericBuilder::<V4, Local>::default(); b.set_claim(AudienceClaim::from("a")); if let Ok(t) = b.try_encrypt(key) { if g.parse(lk(&t), key).is_err() { return wit(format!("{pid} GenericParser: set_footer(\"old\") then set_footer(\"\") still expects the old footer (a footer-less token is rejected)")); } }
+      let mut pb = PasetoBuilder::<V4, Local>::default(); pb.set_footer(Footer::from("old")); pb.set_footer(Footer::from(""));
+      if let Ok(t) = pb.build(key) { if t.split('.').count() != 3 || PasetoParser::<V4, Local>::default().parse(lk(&t), key).is_err() { return wit(format!("{pid} PasetoBuilder: set_footer(\"old\") then set_footer(\"\") still emits / authenticates the old footer: {t}")); } }
+      let mut gb = GenericBuilder::<V4, Local>::default(); gb.set_claim(AudienceClaim::from("a")); gb.set_footer(Footer::from("old")); gb.set_footer(Footer::from("new"));
+      if let Ok(t) = gb.try_encrypt(key) { let mut p = GenericParser::<V4, Local>::default(); p.set_footer(Footer::from("new")); if p.parse(lk(&t), key).is_err() { return wit(format!("{pid} GenericBuilder: the second set_footer does not replace the first")); } }
+      let mut g2 = GenericParser::<V4, Local>::default(); g2.set_implicit_assertion(ImplicitAssertion::from("old")); g2.set_implicit_assertion(ImplicitAssertion::from(""));
+      let mut b2 = GenericBuilder::<V4, Local>::default(); b2.set_claim(AudienceClaim::from("a")); if let Ok(t) = b2.try_encrypt(key) { if g2.parse(lk(&t), key).is_err() { return wit(format!("{pid} GenericParser: set_implicit_assertion(\"old\") then (\"\") still expects the old assertion")); } } }
+    // a builder used twice keeps footer and assertion
+    { let mut gb = GenericBuilder::<V4, Local>::default(); gb.set_claim(AudienceClaim::from("a")); gb.set_footer(Footer::from("F")); gb.set_implicit_assertion(ImplicitAssertion::from("A"));
+      let mut p = GenericParser::<V4, Local>::default(); p.set_footer(Footer::from("F")); p.set_implicit_assertion(ImplicitAssertion::from("A"));
+      for round in 0..3 { match gb.try_encrypt(key) { Ok(t) => { if p.parse(lk(&t), key).is_err() { return wit(format!("{pid} GenericBuilder<V4,Local> build #{round} from one builder lost its footer or assertion: {t}")); } } Err(e) => return wit(format!("{pid} GenericBuilder build #{round} failed: {e}")) } }
+      let mut pb = PasetoBuilder::<V4, Local>::default(); pb.set_footer(Footer::from("F")); pb.set_implicit_assertion(ImplicitAssertion::from("A"));
+      let mut pp = PasetoParser::<V4, Local>::default(); pp.set_footer(Footer::from("F")); pp.set_implicit_assertion(ImplicitAssertion::from("A"));
+      for round in 0..3 { match pb.build(key) { Ok(t) => { if pp.parse(lk(&t), key).is_err() { return wit(format!("{pid} PasetoBuilder<V4,Local> build #{round} from one builder lost its footer or assertion: {t}")); } } Err(e) => return wit(format!("{pid} PasetoBuilder build #{round} failed: {e}")) } } }
 }
 #[cfg(feature = "main_set")]
 fn c05() {
@@ -256,6 +307,7 @@ fn c05() {
             if local::dec(v, 1, &t2, &Some(x.to_string()), &None).is_ok() { return wit(format!("C05 v{v}.local token built with NO footer and assertion {x:?}, footer segment base64url({x:?}) appended, is accepted with expected footer {x:?} and no assertion")); } }
         if let Ok(t) = local::enc(v, 1, 2, "{\"a\":1}", &Some(x.to_string()), &None, false) { let seg: Vec<&str> = t.split('.').collect(); let t2 = seg[..3].join(".");
             if local::dec(v, 1, &t2, &None, &Some(x.to_string())).is_ok() { return wit(format!("C05 v{v}.local token built with footer {x:?} and no assertion, footer segment removed, is accepted with no expected footer and assertion {x:?}")); } } } }
+    layer_setter_orders("C05");
     public_tamper();
 }
 #[cfg(feature = "main_set")]
@@ -282,7 +334,7 @@ fn c06() {
     // (footer, assertion) boundary shift
     for v in 3..=4u8 { let t = local::enc(v, 1, 2, "{}", &Some("ab".into()), &Some("cd".into()), false).unwrap_or_default();
         if local::dec(v, 1, &t, &Some("abc".into()), &Some("d".into())).is_ok() { return wit(format!("C06 v{v}.local boundary shift between footer and assertion accepted")); } }
-    layers_roundtrip();
+    layers_roundtrip(); layer_setter_orders("C06");
     // second build from the same core builder keeps the assertion
     for v in 3..=4u8 { if let Ok(t) = local::enc(v, 1, 2, "{}", &None, &Some("ia".into()), true) { if local::dec(v, 1, &t, &None, &Some("ia".into())).is_err() { return wit(format!("C06 v{v}.local: second try_encrypt from one builder lost the implicit assertion (token {t})")); } } }
 }
@@ -383,6 +435,14 @@ fn c09() {
     // expected footer longer / shorter than the presented segment, multi-byte text in the footer segment
     for fseg in ["", "A", "Zm9", "Zm9v", "Zm9vYmFy", "\u{20ac}", "Z\u{20ac}", "Zm\u{e9}v", "=", "===="] { for exp_f in ["foo", "f", "foobarbaz", "\u{20ac}"] { let s = format!("v4.local.{}.{fseg}", R::b64(&[0u8; 70]));
         if !no_panic(AssertUnwindSafe(|| { let _ = Paseto::<V4, Local>::try_decrypt(&s, &PasetoSymmetricKey::<V4, Local>::from(key32(1)), Some(Footer::from(exp_f)), None); let mut p = PasetoParser::<V4, Local>::default(); p.set_footer(Footer::from(exp_f)); let _ = p.parse(lk(&s), lkv(PasetoSymmetricKey::<V4, Local>::from(key32(1)))); })) { return wit(format!("C09 try_decrypt/parse panics on token {s:?} with expected footer {exp_f:?}")); } } }
+    { let (t, key) = v4tok("{\"sub\":\"alice\"}"); use std::collections::HashMap;
+      let mut vm: ValidatorMap = HashMap::new(); vm.insert("absent".to_string(), Box::new(|_k: &str, _v: &serde_json::Value| Ok(())));
+      let mut g = GenericParser::<V4, Local>::default(); g.extend_validation_claims(vm);
+      if !no_panic(AssertUnwindSafe(|| { let _ = g.parse(lk(&t), key); })) { return wit("C09 GenericParser::parse panics on an authentic token that lacks a claim for which extend_validation_claims registered a validator".into()); }
+      let mut g2 = GenericParser::<V4, Local>::default(); g2.check_claim(CustomClaim::try_from(("absent", 1)).unwrap()); g2.validate_claim(CustomClaim::try_from("absent2").unwrap(), &|_k, _v| Ok(()));
+      if !no_panic(AssertUnwindSafe(|| { let _ = g2.parse(lk(&t), key); })) { return wit("C09 GenericParser::parse panics on an authentic token that lacks an expected / validated claim".into()); } }
+    for k in 0..=14usize { for ch in ["\u{e9}", "\u{20ac}", "\u{1F511}"] { let base = "v4.local.AAAAAAAAAAAAAAAA"; let s: String = format!("{}{ch}{}", &base[..k], &base[k..]);
+        if !no_panic(AssertUnwindSafe(|| { let _ = PasetoParser::<V4, Local>::default().parse(lk(&s), lkv(PasetoSymmetricKey::<V4, Local>::from(key32(1)))); let _ = GenericParser::<V4, Local>::default().parse(lk(&s), lkv(PasetoSymmetricKey::<V4, Local>::from(key32(1)))); let _ = Paseto::<V4, Local>::try_decrypt(&s, &PasetoSymmetricKey::<V4, Local>::from(key32(1)), None, None); })) { return wit(format!("C09 a parse entry point panics on token text {s:?} (multi-byte character at byte offset {k})")); } } }
     for n in 0..=200usize { for c in ["0", "a", "g", "\u{e9}"] { let s = c.repeat(n);
         if !no_panic(|| { let _ = Key::<32>::try_from(s.as_str()); }) { return wit(format!("C09 Key::<32>::try_from panics on a {n}-character string of {c:?}")); }
         if !no_panic(|| { let _ = Key::<64>::try_from(s.as_str()); }) { return wit(format!("C09 Key::<64>::try_from panics on a {n}-character string of {c:?}")); }
@@ -410,6 +470,14 @@ fn c10() {
         if t1 == t2 { return wit(format!("C10 PasetoBuilder<{},Local>: two builds give the same token", stringify!($V))); }
     }} }
     go!(V1, 32); go!(V2, 24); go!(V3, 32); go!(V4, 32);
+    // builds on several threads
+    { let handles: Vec<_> = (0..4).map(|_| std::thread::spawn(|| { let key = PasetoSymmetricKey::<V4, Local>::from(key32(1)); let mut out = vec![];
+          let mut b = GenericBuilder::<V4, Local>::default(); b.set_claim(AudienceClaim::from("a")); for _ in 0..16 { if let Ok(t) = b.try_encrypt(&key) { out.push(t); } } out })).collect();
+      let mut seen = HashSet::new(); for (ti, h) in handles.into_iter().enumerate() { for t in h.join().unwrap_or_default() { let d = R::unb64(t.split('.').nth(2).unwrap_or("")).unwrap_or_default(); if d.len() < 32 || !seen.insert(d[..32].to_vec()) { return wit(format!("C10 GenericBuilder<V4,Local>: a nonce produced on thread {ti} repeats one produced on another thread: {t}")); } } } }
+    // per-bit frequency of the nonce over 600 builds (no bit stuck at 0 or 1 is already checked; a heavily biased bit is caught here)
+    { let key = lkv(PasetoSymmetricKey::<V4, Local>::from(key32(1))); let mut ones = vec![0u32; 256]; let n = 600u32;
+      for _ in 0..n { let mut b = GenericBuilder::<V4, Local>::default(); b.set_claim(AudienceClaim::from("a")); if let Ok(t) = b.try_encrypt(&key) { let d = R::unb64(t.split('.').nth(2).unwrap_or("")).unwrap_or_default(); if d.len() >= 32 { for j in 0..256 { if d[j / 8] >> (j % 8) & 1 == 1 { ones[j] += 1; } } } } }
+      for j in 0..256 { if ones[j] < n / 5 || ones[j] > n - n / 5 { return wit(format!("C10 GenericBuilder<V4,Local>: bit {} of nonce byte {} is set in {} of {n} tokens (not uniform)", j % 8, j / 8, ones[j])); } } }
 }
 #[cfg(feature = "main_set")]
 fn v4tok(payload: &str) -> (String, &'static PasetoSymmetricKey<V4, Local>) {
@@ -435,6 +503,31 @@ fn c11_c12(which: &str) {
                 if r != must_accept { return wit(format!("{which} default PasetoParser<{}> on payload {{\"{claim}\":{val}}} (now = {}) -> {} but must {}", if layer == 0 { "V4,Local" } else { "V3,Local" }, now.format(&Rfc3339).unwrap(), if r { "accept" } else { "reject" }, if must_accept { "accept" } else { "reject" })); } }
         }
         for b in bad { let (t, key) = v4tok(&format!("{{\"{claim}\":{b}}}")); if PasetoParser::<V4, Local>::default().parse(lk(&t), key).is_ok() { return wit(format!("{which} default PasetoParser accepts a token whose {claim} is present but not an RFC 3339 timestamp: {{\"{claim}\":{b}}}")); } }
+        // the default check cannot be displaced by an expected-claim registration or by a custom claim whose key merely looks like the registered one
+        { fn always_ok(_k: &str, _v: &serde_json::Value) -> Result<(), PasetoClaimError> { Ok(()) }
+          let bad_instant = if claim == "exp" { "2000-01-01T00:00:00Z" } else { "2999-01-01T00:00:00Z" };
+          let (t, key) = v4tok(&format!("{{\"{claim}\":\"{bad_instant}\"}}"));
+          let mut p = PasetoParser::<V4, Local>::default();
+          if claim == "exp" { p.check_claim(ExpirationClaim::try_from(bad_instant).unwrap()); } else { p.check_claim(NotBeforeClaim::try_from(bad_instant).unwrap()); }
+          if p.parse(lk(&t), key).is_ok() { return wit(format!("{which} PasetoParser::default().check_claim({claim} = {bad_instant}) accepts a token whose {claim} is {bad_instant} (the default {claim} validator no longer runs)")); }
+          for k in [format!("{claim} "), format!(" {claim}"), format!("{claim}\0"), claim.to_uppercase()] { if let Ok(c) = CustomClaim::try_from(k.as_str()) {
+              let mut p = PasetoParser::<V4, Local>::default(); p.validate_claim(c, &always_ok);
+              if p.parse(lk(&t), key).is_ok() { return wit(format!("{which} PasetoParser::default().validate_claim(CustomClaim {k:?}, accept-all) accepts a token whose {claim} is {bad_instant}: a custom claim displaced the default {claim} validator")); } } } }
+        { let bad_instant = if claim == "exp" { "2000-01-01T00:00:00Z" } else { "2999-01-01T00:00:00Z" };
+          let (t, key) = v4tok(&format!("{{\"{claim}\":\"{bad_instant}\",\"aud\":\"customers\",\"sub\":\"loyal\",\"iss\":\"me\"}}"));
+          for round in 0..64 { let mut p = PasetoParser::<V4, Local>::default(); p.check_claim(AudienceClaim::from("customers")); if round % 2 == 0 { p.check_claim(SubjectClaim::from("loyal")); } if round % 3 == 0 { p.check_claim(IssuerClaim::from("me")); }
+              if p.parse(lk(&t), key).is_ok() { return wit(format!("{which} PasetoParser::default() with matching aud/sub/iss expectations (fresh parser #{round}) accepts a token whose {claim} is {bad_instant}")); } }
+          let good_instant = if claim == "exp" { "2999-01-01T00:00:00Z" } else { "2000-01-01T00:00:00Z" };
+          let (t2, key2) = v4tok(&format!("{{\"{claim}\":\"{good_instant}\"}}"));
+          if let Err(e) = PasetoParser::<V4, Local>::default().parse(lk(&t2), key2) { return wit(format!("{which} PasetoParser::default() rejects a token whose only claim is a valid {claim} = {good_instant}: {e}")); } }
+        // one parser reused for several tokens: every parse applies the default check afresh
+        { let bad_instant = if claim == "exp" { "2000-01-01T00:00:00Z" } else { "2999-01-01T00:00:00Z" }; let good_instant = if claim == "exp" { "2999-01-01T00:00:00Z" } else { "2000-01-01T00:00:00Z" };
+          let (tg, key) = v4tok(&format!("{{\"{claim}\":\"{good_instant}\"}}")); let (tb, _) = v4tok(&format!("{{\"{claim}\":\"{bad_instant}\"}}")); let (tn, _) = v4tok(&format!("{{\"{claim}\":12345}}"));
+          let mut p = PasetoParser::<V4, Local>::default(); let mut got = vec![];
+          for t in [&tg, &tb, &tn, &tg, &tb] { got.push(p.parse(lk(t), key).is_ok()); }
+          if got != [true, false, false, true, false] { return wit(format!("{which} one PasetoParser<V4,Local> parsing tokens with {claim} = [valid, invalid instant, non-timestamp, valid, invalid instant] in turn: accepted = {got:?} but must be [true, false, false, true, false]")); }
+          let mut g = PasetoParser::<V4, Local>::default(); g.check_claim(CustomClaim::try_from(("x", 1)).unwrap()); let _ = g.parse(lk(&tg), key); let mut p2 = PasetoParser::<V4, Local>::default(); let _ = p2.parse(lk("garbage"), key); let _ = p2.parse(lk(&tg), key);
+          if p2.parse(lk(&tb), key).is_ok() { return wit(format!("{which} one PasetoParser<V4,Local>: after a failed and a successful parse, a token with {claim} = {bad_instant} is accepted")); } }
         // one parser, one token, parsed before and after the instant passes: the verdict must follow the clock
         { let t0 = time::OffsetDateTime::now_utc(); let soon = fmt(t0 + time::Duration::milliseconds(4000), (0, 0), true); let (t, key) = v4tok(&format!("{{\"{claim}\":\"{soon}\"}}"));
           let mut p = PasetoParser::<V4, Local>::default(); let first = p.parse(lk(&t), key).is_ok(); let in_time = time::OffsetDateTime::now_utc() < t0 + time::Duration::milliseconds(3500);
@@ -498,6 +591,8 @@ fn c14() {
         let want = json!({"other": 1, k: v, "iss": "me", "jti": "id1", "sub": "sb", "aud": "au"});
         if j != want { return wit(format!("C14 claims set {want} but (after {rounds} build(s)) the parsed token holds {j}")); }
     }}}
+    { let mut b = GenericBuilder::<V4, Local>::default(); for k in ["Data", "data", "DATA", "Sub"] { b.set_claim(CustomClaim::try_from((k, 1)).unwrap()); } b.set_claim(SubjectClaim::from("s")); b.remove_claim("data");
+      if let Ok(t) = b.try_encrypt(&key) { match GenericParser::<V4, Local>::default().parse(lk(&t), key) { Ok(j) => { if j != json!({"Data": 1, "DATA": 1, "Sub": 1, "sub": "s"}) { return wit(format!("C14 claims Data, data, DATA, Sub, sub were set and only `data` removed, but the parsed token holds {j}")); } } Err(e) => return wit(format!("C14 parse failed after remove_claim: {e}")) } } }
     // two keys that differ only by an invisible code point stay two members
     { let mut b = GenericBuilder::<V4, Local>::default(); b.set_claim(CustomClaim::try_from(("dup", 1)).unwrap()); b.set_claim(CustomClaim::try_from(("dup\u{feff}", 2)).unwrap());
       if let Ok(t) = b.try_encrypt(&key) { match GenericParser::<V4, Local>::default().parse(lk(&t), key) { Ok(j) => { if j != json!({"dup": 1, "dup\u{feff}": 2}) { return wit(format!("C14 claims dup=1 and dup<U+FEFF>=2 were set but the parsed token holds {j}")); } } Err(e) => return wit(format!("C14 parse failed for keys differing by U+FEFF: {e}")) } } }
@@ -533,6 +628,13 @@ fn c15() {
     case!("iat=2019-01-01T00:00:00+00:00", |p: &mut PasetoParser<V4, Local>| { p.check_claim(IssuedAtClaim::try_from("2019-01-01T00:00:00+00:00").unwrap()); }, true);
     case!("c={a:[1]}", |p: &mut PasetoParser<V4, Local>| { p.check_claim(CustomClaim::try_from(("c", json!({"a": [1]}))).unwrap()); }, true);
     case!("m=null (absent)", |p: &mut PasetoParser<V4, Local>| { p.check_claim(CustomClaim::try_from(("m", serde_json::Value::Null)).unwrap()); }, false);
+    { let t_e = v4tok("{\"aud\":\"x\",\"scope\":\"admin\",\"empty\":\"\"}").0;
+      for layer in 0..2 { macro_rules! exp { ($desc:expr, $claim:expr, $acc:expr) => {{ let r = if layer == 0 { let mut p = GenericParser::<V4, Local>::default(); p.check_claim($claim); p.parse(lk(&t_e), key).is_ok() } else { let mut p = PasetoParser::<V4, Local>::default(); p.check_claim($claim); p.parse(lk(&t_e), key).is_ok() };
+          if r != $acc { return wit(format!("C15 {} expecting {} on payload {{aud:x, scope:admin, empty:\"\"}} -> accepts = {r} but must be {}", if layer == 0 { "GenericParser" } else { "PasetoParser" }, $desc, $acc)); } }} }
+        exp!("aud=\"\" (token has aud=x)", AudienceClaim::from(""), false);
+        exp!("scope=\"\" (token has scope=admin)", CustomClaim::try_from(("scope", "")).unwrap(), false);
+        exp!("empty=\"\" (token has empty=\"\")", CustomClaim::try_from(("empty", "")).unwrap(), true);
+        exp!("missing=\"\" (absent)", CustomClaim::try_from(("missing", "")).unwrap(), false); } }
     // keys and values are compared verbatim
     { let t_ws = v4tok("{\"role\":\"x\",\" tenant\":\"t\",\"iat\":\"2019-01-01T00:00:00Z\",\"exp\":\"2999-01-01T00:00:00Z\",\"nbf\":\"2000-01-01T00:00:00Z\"}").0;
       macro_rules! ws { ($desc:expr, $cfg:expr, $acc:expr) => {{ let mut p = GenericParser::<V4, Local>::default(); $cfg(&mut p); let r = p.parse(lk(&t_ws), key);
@@ -573,6 +675,11 @@ fn c16() {
         let r = p.parse(lk(&t), key);
         if r.is_ok() || CALLS.load(Ordering::SeqCst) != 1 { return wit(format!("C16 a rejecting validator for {desc} was run {} time(s) and parse returned {:?}", CALLS.load(Ordering::SeqCst), r.map(|_| "Ok").map_err(|e| e.to_string()))); }
     }
+    for layer in 0..2 { for (desc, which) in [("present claim sub", 0), ("absent claim role", 1)] {
+        CALLS.store(0, Ordering::SeqCst);
+        let r = if layer == 0 { let mut p = GenericParser::<V4, Local>::default(); if which == 0 { p.validate_claim(SubjectClaim::from("x"), &reject); } else { p.validate_claim(CustomClaim::try_from("role").unwrap(), &reject); } p.parse(lk(&v4tok("{\"sub\":\"alice\",\"exp\":\"2999-01-01T00:00:00Z\"}").0), key).is_ok() }
+                else { let mut p = PasetoParser::<V4, Local>::default(); if which == 0 { p.validate_claim(SubjectClaim::from("x"), &reject); } else { p.validate_claim(CustomClaim::try_from("role").unwrap(), &reject); } p.parse(lk(&v4tok("{\"sub\":\"alice\",\"exp\":\"2999-01-01T00:00:00Z\"}").0), key).is_ok() };
+        if r || CALLS.load(Ordering::SeqCst) != 1 { return wit(format!("C16 {}: a rejecting validator registered for the {desc} ran {} time(s) and parse accepted = {r} (must run once, with null for an absent claim, and fail the parse)", if layer == 0 { "GenericParser" } else { "PasetoParser" }, CALLS.load(Ordering::SeqCst))); } } }
     // default parser: exp equal to the placeholder must still be validated (expired)
     if PasetoParser::<V4, Local>::default().parse(lk(&t), key).is_ok() { return wit("C16/C11 default PasetoParser accepts exp=2019-01-01T00:00:00+00:00 (its validator was bypassed)".into()); }
     // re-registration: the later validator must be honoured
@@ -699,6 +806,10 @@ fn c18() {
             if $T::try_from(g.to_string()).is_err() { return wit(format!("C18 {}::try_from(String {g:?}) rejects an RFC 3339 date-time", stringify!($T))); } }} }
         chk!(ExpirationClaim); chk!(NotBeforeClaim); chk!(IssuedAtClaim);
     }
+    std::panic::set_hook(Box::new(|_| {}));
+    for b in ["ab\u{20ac}", "abc\u{e9}", "\u{e9}t\u{e9} 2019", "\u{65e5}\u{672c}\u{8a9e}", "2019\u{2212}01-01", "20\u{e9}9-01-01T00:00:00Z", "\u{1F511}", "a\u{1F511}b", "2019-01-01T00:00:00\u{e9}"] {
+        if !no_panic(AssertUnwindSafe(|| { let _ = ExpirationClaim::try_from(b); let _ = NotBeforeClaim::try_from(b); let _ = IssuedAtClaim::try_from(b); let _ = ExpirationClaim::try_from(b.to_string()); let _ = NotBeforeClaim::try_from(b.to_string()); let _ = IssuedAtClaim::try_from(b.to_string()); })) { return wit(format!("C18 a time claim constructor PANICS on {b:?} instead of returning an error")); }
+        if !no_panic(AssertUnwindSafe(|| { let _ = CustomClaim::try_from(b); let _ = CustomClaim::try_from((b, 1)); let _ = CustomClaim::try_from((b.to_string(), 1)); })) { return wit(format!("C18 a CustomClaim constructor PANICS on key {b:?}")); } }
     for b in bad { if ExpirationClaim::try_from(b).is_ok() || NotBeforeClaim::try_from(b).is_ok() || IssuedAtClaim::try_from(b).is_ok() || ExpirationClaim::try_from(b.to_string()).is_ok() || NotBeforeClaim::try_from(b.to_string()).is_ok() || IssuedAtClaim::try_from(b.to_string()).is_ok() { return wit(format!("C18 a time claim constructor accepts {b:?}, which does not start with an ISO 8601 date")); } }
 }
 #[cfg(feature = "main_set")]
@@ -711,6 +822,14 @@ fn c02() { public_tamper(); c08();
             match b.try_sign(&PasetoAsymmetricPrivateKey::<V1, Public>::from(&sk[..])) { Ok(t) => match Paseto::<V1, Public>::try_verify(&t, &PasetoAsymmetricPublicKey::<V1, Public>::from(&pk[..]), f.map(Footer::from)) { Ok(p) if p == m => {}, o => return wit(format!("C02 v1.public round trip failed for message len {} footer {f:?}: {:?}", m.len(), o.map_err(|e| format!("{e:?}")))) }, Err(e) => return wit(format!("C02 v1.public try_sign failed: {e:?}")) }
         }}
     }
+    // two RSA key pairs used one after the other (and again in the other order): each token verifies under its own key only
+    { let pool = rsakeys::pool();
+      for order in [[0usize, 1, 0, 1], [1, 0, 1, 0]] { for ix in order { let (sk, pkd) = &pool[ix]; let (_, other_pk) = &pool[1 - ix];
+          let mut b = Paseto::<V1, Public>::builder(); b.set_payload(Payload::from("{\"k\":1}"));
+          match b.try_sign(&PasetoAsymmetricPrivateKey::<V1, Public>::from(&sk[..])) {
+              Ok(t) => { if Paseto::<V1, Public>::try_verify(&t, &PasetoAsymmetricPublicKey::<V1, Public>::from(&pkd[..]), None).is_err() { return wit(format!("C02 v1.public: a token signed with RSA key pair #{ix} (after other key pairs were used in the same thread) does not verify under its own public key")); }
+                         if Paseto::<V1, Public>::try_verify(&t, &PasetoAsymmetricPublicKey::<V1, Public>::from(&other_pk[..]), None).is_ok() { return wit(format!("C04 v1.public: a token signed with RSA key pair #{ix} verifies under the OTHER key pair's public key")); } }
+              Err(e) => return wit(format!("C02 v1.public try_sign failed: {e:?}")) } } } }
     let (kp, pk) = R::ed_keypair(9); let k64 = lkv(Key::<64>::from(kp)); let k32 = lkv(Key::<32>::from(pk));
     // message sizes around block boundaries and long footers, both Ed25519 versions
     for n in [4095usize, 4096, 4097, 5000, 12288, 12289, 65536, 70_000] { let m = "m".repeat(n);
@@ -754,6 +873,13 @@ fn v3pub(pid: &str) {
             for (f2, i2) in [(Some("other"), i), (f, Some("other")), (None, i)] { if f2.unwrap_or("") == f.unwrap_or("") && i2.unwrap_or("") == i.unwrap_or("") { continue; } if Paseto::<V3, Public>::try_verify(&t, pub_, f2.map(Footer::from), i2.map(ImplicitAssertion::from)).is_ok() { return wit(format!("{pid} v3.public token built with footer {f:?}/assertion {i:?} verifies with {f2:?}/{i2:?}")); } }
         }
     }}}
+    { use p384::ecdsa::signature::DigestSigner;
+      for (mi, m) in ["", "{\"a\":1}", "{\"data\":\"this is a signed message\"}", "x", "yy", "zzz", "0123456789", "{\"n\":2}", "{\"n\":3}", "{\"n\":4}", "{\"n\":5}", "{\"n\":6}"].iter().enumerate() { for f in ["", "ft"] {
+          let pre = R::pae(&[&pkb, b"v3.public.", m.as_bytes(), f.as_bytes(), b""]); let mut h = sha2::Sha384::new(); h.update(&pre);
+          let sig: Signature = sk.sign_digest(h); let (r, sv) = sig.split_scalars(); let neg = Signature::from_scalars(r, -*sv).unwrap();
+          for (form, sg) in [("as produced", sig), ("with s negated (equally valid, the spec has no low-S rule)", neg)] {
+              let mut p = m.as_bytes().to_vec(); p.extend_from_slice(&sg.to_bytes()); let t = R::token("v3.public.", &p, f.as_bytes());
+              match Paseto::<V3, Public>::try_verify(&t, pub_, if f.is_empty() { None } else { Some(Footer::from(f)) }, None) { Ok(got) if got == *m => {}, o => return wit(format!("{pid} v3.public rejects a token of an independent P-384 signer (message #{mi}, footer {f:?}, signature {form}): {:?}", o.map_err(|e| format!("{e:?}")))) } } } } }
     for n in 0..=400usize { let s = format!("v3.public.{}", R::b64(&vec![0u8; n])); if catch_unwind(AssertUnwindSafe(|| { let _ = Paseto::<V3, Public>::try_verify(&s, pub_, None, None); let _ = PasetoParser::<V3, Public>::default().parse(lk(&s), pub_); })).is_err() { return wit(format!("{pid} v3.public try_verify/parse panics on a {n}-byte payload: {s}")); } }
     // default validators on v3.public (C11/C12/C16)
     for (payload, what) in [("{\"exp\":\"2000-01-01T00:00:00Z\"}", "an expired exp"), ("{\"nbf\":\"2999-01-01T00:00:00Z\"}", "a future nbf"), ("{\"nbf\":12345}", "a non-timestamp nbf"), ("{\"exp\":true}", "a non-timestamp exp")] {
